@@ -175,6 +175,18 @@ func (r *Runner) sampleQueries(s *Snap) []qArg {
 	}
 	svcs := []int64{1, 2, 3, 4, 5, a.atomOfSvc("nosuch"), a.atomOfSvc("ab-")}
 	owners := []int64{101, 102, 103, strangerAtom, 111}
+	// the owners that actually hold bindings in this state (outside the standard pool only in the K5 witnesses)
+	for _, b := range s.Binds {
+		at := a.atomOfAddr(b.Owner)
+		known := false
+		for _, o := range owners {
+			known = known || o == at
+		}
+		if !known && len(owners) < 9 {
+			owners = append(owners, at)
+		}
+	}
+	sort.Slice(owners[5:], func(i, j int) bool { return owners[5+i] < owners[5+j] })
 
 	for _, v := range svcs {
 		add(qArg{Kind: "def", Svc: v})
